@@ -43,6 +43,7 @@ INVARIANT C12_Recovers
 INVARIANT C13_NoPanic
 INVARIANT X01_QueueDiscipline
 INVARIANT X02_ResyncAfter
+INVARIANT X03_NonRollingAtOnce
 INVARIANT C13_RejectedNoWrites
 INVARIANT C13_HookErrNoWrites
 INVARIANT C16_OnlyNamedKeys
